@@ -257,6 +257,9 @@ func (k Keeper) LiquidateBorrows(ctx sdk.Context, offsetCounterId uint64) error 
 		}
 	}
 	liquidationOffsetHolder.CurrentOffset = uint64(end)
+	// the borrow cursor lives under its own id; without it the holder is written under id 0,
+	// which is the vault sweep's cursor, and is never found again under offsetCounterId
+	liquidationOffsetHolder.AppId = offsetCounterId
 	k.SetLiquidationOffsetHolder(ctx, types.VaultLiquidationsOffsetPrefix, liquidationOffsetHolder)
 
 	return nil
